@@ -7,10 +7,23 @@ import "math"
 type logical func(iterator, string, interface{}, interface{}) bool
 
 var logicalFuncs = [][]logical{
-	{cmpBooleanBoolean, nil, nil, nil},
-	{nil, cmpNumericNumeric, cmpNumericString, cmpNumericNodeSet},
-	{nil, cmpStringNumeric, cmpStringString, cmpStringNodeSet},
-	{nil, cmpNodeSetNumeric, cmpNodeSetString, cmpNodeSetNodeSet},
+	{cmpBooleanBoolean, cmpBooleanAny, cmpBooleanAny, cmpBooleanAny},
+	{cmpBooleanAny, cmpNumericNumeric, cmpNumericString, cmpNumericNodeSet},
+	{cmpBooleanAny, cmpStringNumeric, cmpStringString, cmpStringNodeSet},
+	{cmpBooleanAny, cmpNodeSetNumeric, cmpNodeSetString, cmpNodeSetNodeSet},
+}
+
+// cmpBooleanAny compares a boolean with a value of any type, in either order:
+// for = and != the other operand is converted to a boolean, for the relational
+// operators both operands are converted to numbers.
+func cmpBooleanAny(t iterator, op string, m, n interface{}) bool {
+	switch op {
+	case "=":
+		return asBool(t, m) == asBool(t, n)
+	case "!=":
+		return asBool(t, m) != asBool(t, n)
+	}
+	return cmpNumberNumberF(op, asNumber(t, m), asNumber(t, n))
 }
 
 // number vs number
@@ -184,6 +197,9 @@ func cmpStringNodeSet(t iterator, op string, m, n interface{}) bool {
 func cmpBooleanBoolean(t iterator, op string, m, n interface{}) bool {
 	a := m.(bool)
 	b := n.(bool)
+	if op != "or" && op != "and" {
+		return cmpBooleanAny(t, op, m, n)
+	}
 	return cmpBooleanBooleanF(op, a, b)
 }
 
